@@ -9,6 +9,7 @@ package staking
 // StakeAuthorization.Accept) and the mirroring are the real code.
 
 import (
+	"strings"
 	"errors"
 	"math/big"
 	"time"
@@ -366,9 +367,15 @@ func VerifC04_Identity() {
 	amt := zz.AnyAmount("amount", 128)
 	method := zz.Choose("method", 4)
 	url := []string{DelegateMsg, UndelegateMsg, RedelegateMsg, CancelUnbondingDelegationMsg}[method]
-	// grant state: absent / wrong type (generic) / limited / unlimited / for another message type
+	// grant state: absent / wrong type (generic) / limited / unlimited / for another message type / unlimited with a deny list
+	// naming the validators of the call (such grants come from a Cosmos MsgGrant)
 	var limit sdkmath.Int
-	grantKind := zz.Choose("grant", 5)
+	grantKind := zz.Choose("grant", 6)
+	// the validator address as the call spells it: canonical, or all upper case (bech32 admits both for the same address)
+	spelled := c04Val
+	if zz.AnyBool("validatorSpelledInUpperCase") {
+		spelled = strings.ToUpper(c04Val)
+	}
 	authzType := []stakingtypes.AuthorizationType{DelegateAuthz, UndelegateAuthz, RedelegateAuthz, CancelUnbondingDelegationAuthz}[method]
 	gKey := c04Key(caller.Bytes(), c04Origin.Bytes(), url)
 	switch grantKind {
@@ -382,6 +389,9 @@ func VerifC04_Identity() {
 	case 3:
 		c04.grants[gKey] = &c04Grant{auth: &stakingtypes.StakeAuthorization{AuthorizationType: authzType,
 			Validators: &stakingtypes.StakeAuthorization_AllowList{AllowList: &stakingtypes.StakeAuthorization_Validators{Address: []string{c04Val}}}}}
+	case 5:
+		c04.grants[gKey] = &c04Grant{auth: &stakingtypes.StakeAuthorization{AuthorizationType: authzType,
+			Validators: &stakingtypes.StakeAuthorization_DenyList{DenyList: &stakingtypes.StakeAuthorization_Validators{Address: []string{c04Val, c04Val2}}}}}
 	case 4: // a grant for another message type only
 		other, otherT := RedelegateMsg, RedelegateAuthz
 		if method == 2 {
@@ -392,7 +402,7 @@ func VerifC04_Identity() {
 	c04.srvFail = zz.AnyBool("moduleRefuses")
 	bal0 := new(big.Int).Set(db.GetBalance(caller))
 	contract := &vm.Contract{CallerAddress: caller}
-	args := []interface{}{named, c04Val, amt.BigInt()}
+	args := []interface{}{named, spelled, amt.BigInt()}
 	var err error
 	switch method {
 	case 0:
@@ -400,9 +410,9 @@ func VerifC04_Identity() {
 	case 1:
 		_, err = p.Undelegate(ctx, c04Origin, contract, db, c04Method, args)
 	case 2:
-		_, err = p.Redelegate(ctx, c04Origin, contract, db, c04Method, []interface{}{named, c04Val, c04Val2, amt.BigInt()})
+		_, err = p.Redelegate(ctx, c04Origin, contract, db, c04Method, []interface{}{named, spelled, c04Val2, amt.BigInt()})
 	default:
-		_, err = p.CancelUnbondingDelegation(ctx, c04Origin, contract, db, c04Method, []interface{}{named, c04Val, amt.BigInt(), big.NewInt(7)})
+		_, err = p.CancelUnbondingDelegation(ctx, c04Origin, contract, db, c04Method, []interface{}{named, spelled, amt.BigInt(), big.NewInt(7)})
 	}
 	if err != nil {
 		zz.Assert(len(c04.msgs) == 0, "a failed call does not reach the staking module")
@@ -434,7 +444,7 @@ func VerifC04_Identity() {
 	zz.Assert(named == c04Origin || named == caller, "the account acted for is the transaction signer or the calling contract")
 	if caller != c04Origin {
 		// the caller is not the signer: a live grant of the right type from the account acted for covered the amount
-		zz.Assert(grantKind == 2 || grantKind == 3, "a caller other than the signer needs a live staking grant for this message type")
+		zz.Assert(grantKind == 2 || grantKind == 3, "a caller other than the signer needs a live staking grant for this message type that covers the validator (a grant that denies the validator covers no spelling of its address)")
 		zz.Reach("contract-caller-accepted")
 		if grantKind == 2 {
 			zz.Reach("limited-grant-spent")
